@@ -395,7 +395,11 @@ class Env:
         raise Unsupported('id() is process-dependent (forbidden in pure functions)')
 
     def bi_hash(self, it, a, k):
-        raise Unsupported('hash() is seed/process-dependent (forbidden in pure functions)')
+        # the builtin hash of str / bytes / objects depends on PYTHONHASHSEED and the process: a fresh,
+        # unconstrained integer per call (so nothing that must be a function of the key can be proved from it)
+        self.use('builtin hash(): an arbitrary integer per call (seed- and process-dependent)')
+        it.st.effect('NONDET', what='hash()')
+        return it.st.fresh_sv('builtin_hash', 'int')
 
     def bi_repr(self, it, a, k):
         if isinstance(a[0], (int, str, float, bytes, type(None))):
